@@ -250,6 +250,9 @@ func respCompat(a *alt, r *response, relax map[string]bool, cancelled bool) bool
 		return r.hasErr && r.code == codeBare
 	case retErrInt:
 		return r.hasErr && r.code == -32603
+	case retUnser:
+		// no result can be sent; which error code reports that is not fixed by the property text
+		return r.hasErr
 	}
 	return false
 }
